@@ -431,6 +431,16 @@ def modules_for(prop, text, regions):
     return sorted(mods)
 
 
+def crate_feats(unit_features):
+    """per-crate feature sets the repository's Cargo.toml wiring gives when the unit's cargo features are selected on crates/stark"""
+    try:
+        import featres
+        on = featres.resolve(A.REPO, set(unit_features) & featres.top_features(A.REPO))
+        return {p: sorted(fs) for p, fs in sorted(on.items())}
+    except Exception as e:
+        return {'error': str(e)}
+
+
 def process_unit(unit, seed, want_canary=True, prop=None):
     cfg = U.UNITS[unit]
     path = os.path.join(BUILD, 'u_%s_%s.rs' % (unit, prop or 'all'))
@@ -581,8 +591,12 @@ def check_property(prop, tier, seed, replay=None):
     for r in results:
         undecided += ['%s: %s' % (r['unit'], x) for x in r['undecided']]
         if r['canary']:
-            if r['canary']['vacuous']:
-                undecided.append('%s: VACUITY canary verified: %s' % (r['unit'], r['canary']['vacuous']))
+            # a canary of a function whose OWN obligation failed verifies trivially (Verus assumes a failed assertion for the rest
+            # of the body, and the contradiction with the code makes `false` derivable): expected, reported with the failure
+            failing_fns = {f.get('function') for f in r['failures']}
+            vac = [v for v in r['canary']['vacuous'] if v.rsplit(' (canary line', 1)[0] not in failing_fns]
+            if vac:
+                undecided.append('%s: VACUITY canary verified: %s' % (r['unit'], vac))
             undecided += ['%s canary: %s' % (r['unit'], x) for x in r['canary']['undecided']]
         for sb in r.get('stubbed', []):
             if prop in sb['props']:
@@ -635,6 +649,7 @@ def check_property(prop, tier, seed, replay=None):
             trusted_base=TRUSTED_BASE,
             samples=samples,
             units=[dict(unit=r['unit'], features=sorted(U.UNITS[r['unit']]['features']),
+                        cfg_features_per_crate_from_cargo_toml=crate_feats(U.UNITS[r['unit']]['features']),
                         verus_summary=r['res']['summary'].get('verification-results'),
                         times_ms=r['res']['summary'].get('times-ms', {}).get('total') if isinstance(r['res']['summary'].get('times-ms'), dict) else None,
                         smt_ms=(r['res']['summary'].get('times-ms', {}) or {}).get('smt', {}).get('total') if isinstance((r['res']['summary'].get('times-ms', {}) or {}).get('smt'), dict) else None,
